@@ -295,7 +295,8 @@ func (p *H264Packet) parseBody(payload []byte) ([]byte, error) { //nolint:cyclop
 			return nil, errShortPacket
 		}
 
-		if p.fuaBuffer == nil {
+		if p.fuaBuffer == nil || payload[1]&fuStartBitmask != 0 {
+			// a start fragment begins a new unit: drop what is left of an abandoned one
 			p.fuaBuffer = []byte{}
 		}
 
